@@ -94,6 +94,16 @@ func fieldBytes(r *rand.Rand, kind, class string) []byte {
 	valid := class == "valid"
 	ymd := func(century bool) (int, int, int) {
 		y := 1990 + r.Intn(60)
+		// the ends of the representable range and the years around a century (with the 4-digit year only)
+		if century && valid && r.Intn(6) == 0 {
+			y = []int{1, 2, 1899, 1900, 1999, 2000, 2001, 2099, 2100, 9998, 9999}[r.Intn(11)]
+			m := []int{1, 2, 12, 1 + r.Intn(12)}[r.Intn(4)]
+			d := []int{1, 2, daysIn(y, m), 1 + r.Intn(daysIn(y, m))}[r.Intn(4)]
+			if y == 1 && m == 1 && d == 1 {
+				d = 2 // 0001-01-01 is the zero value
+			}
+			return y, m, d
+		}
 		if !century {
 			y %= 100
 			if y >= 69 {
@@ -111,6 +121,22 @@ func fieldBytes(r *rand.Rand, kind, class string) []byte {
 	switch kind {
 	case "u8", "u16", "u32", "serial", "ipv4", "addrport", "mac", "version":
 		r.Read(b) // total kinds: every pattern is in the domain
+		switch r.Intn(12) {
+		case 0:
+			copy(b, make([]byte, n)) // all zero: 0.0.0.0, port 0, "no listener", 00:00:00:00:00:00
+		case 1:
+			for i := range b {
+				b[i] = 0xff
+			}
+		case 2:
+			if kind == "addrport" {
+				b[4], b[5] = 0, 0 // an address without a port
+			}
+		case 3:
+			if kind == "addrport" {
+				b[0], b[1], b[2], b[3] = 0, 0, 0, 0 // a port without an address
+			}
+		}
 		if kind == "u32" && r.Intn(8) == 0 {
 			copy(b, [][]byte{{0, 0, 0, 0}, {0xff, 0xff, 0xff, 0xff}, {0xff, 0xff, 0xff, 0}, {1, 0, 0, 0}}[r.Intn(4)])
 		}
@@ -144,6 +170,10 @@ func fieldBytes(r *rand.Rand, kind, class string) []byte {
 	case "datetime":
 		y, m, d := ymd(true)
 		h, mi, s := r.Intn(24), r.Intn(60), r.Intn(60)
+		if valid && r.Intn(6) == 0 {
+			x := [][3]int{{0, 0, 0}, {23, 59, 59}, {0, 0, 1}, {12, 0, 0}, {0, 59, 59}}[r.Intn(5)]
+			h, mi, s = x[0], x[1], x[2]
+		}
 		if !valid {
 			switch r.Intn(6) {
 			case 0:
@@ -182,6 +212,10 @@ func fieldBytes(r *rand.Rand, kind, class string) []byte {
 		}
 	case "systime":
 		h, mi, s := r.Intn(24), r.Intn(60), r.Intn(60)
+		if valid && r.Intn(6) == 0 {
+			x := [][3]int{{0, 0, 0}, {23, 59, 59}, {0, 0, 1}, {12, 0, 0}}[r.Intn(4)]
+			h, mi, s = x[0], x[1], x[2]
+		}
 		if !valid {
 			switch r.Intn(3) {
 			case 0:
